@@ -22,6 +22,8 @@ A *unit template* (/verif/units/<name>.u.c) is C text with directives:
   /*@extract FILE QUALNAME           verbatim function body + spliced contract
      as CNAME | pick N | params SUBSTR | inclass | static | ret EXPR | call a=>b | throws CNAME
      retself   (method returning Class& through `return *this;` only: emitted as a void function)
+     template-ok   (out-of-line member of a class template: the `template <class T>` prefix is stripped; the unit typedefs T)
+     retref    (method returning T& to an lvalue: emitted as returning T*, `return lv;` becomes `return &(lv);`)
      sub RE => REPL | sub* RE => REPL | drop-loop-contract-ok
      contract / loop K  blocks (lines up to the next key)
   @*/
@@ -146,7 +148,7 @@ def find_function(src, qual, pick=1, params_sub=None, inclass=False):
         pat = re.compile(r'\b%s\s*\(' % re.escape(name))
     else:
         lo, hi = 0, len(src)
-        pat = re.compile(r'(?<![\w:])%s\s*\(' % re.escape(qual))
+        pat = re.compile(r'(?<![\w:])%s\s*\(' % re.escape(qual).replace('::', r'::\s*'))
     found = []
     pos = lo
     while True:
@@ -878,6 +880,10 @@ def parse_extract_block(text):
             spec['ret'] = s[4:].strip()
         elif s == 'retself':
             spec['retself'] = True
+        elif s == 'template-ok':
+            spec['template_ok'] = True
+        elif s == 'retref':
+            spec['retref'] = True
         elif s.startswith('call* '):
             a, b = s[6:].split('=>')
             spec['calls'].append((a.strip(), b.strip(), True))
@@ -929,8 +935,20 @@ def do_extract(spec, cnt, exc_types, info):
     base_line = line_of(src, boff)
     ret = re.sub(r'\b(inline|static|virtual|XMLUTIL_EXPORT|XMLPARSER_EXPORT|explicit)\b', ' ', ret)
     ret = ' '.join(ret.split())
+    if spec.get('template_ok'):
+        # R15: member function of a class template defined out of line (`template <class TElem> void C<TElem>::f(..)`): the
+        # template prefix is stripped; the unit instantiates the parameter(s) with a typedef (e.g. `typedef int TElem;`)
+        ret, ntp = re.subn(r'\btemplate\s*<[^<>]*>', ' ', ret)
+        ret = ' '.join(ret.split())
+        if ntp:
+            cnt.hit('R15_template_prefix', ntp)
     if 'template' in ret or '<' in ret:
         raise ExtractionError('%s: template function not in subset' % cname)
+    if spec.get('retref'):
+        # R16: a method returning a reference to an lvalue (`T& f(..) { .. return lv; }`) is emitted as returning a pointer
+        if not ret.endswith('&'):
+            raise ExtractionError('%s: retref but the return type %r is not a reference' % (cname, ret))
+        ret = ret[:-1].strip() + '*'
     if spec.get('retself'):
         # R14: a method `Class& m(..)` whose every return is `return *this;` (chaining operators) becomes a void function
         if not ret.endswith('&'):
@@ -968,6 +986,11 @@ def do_extract(spec, cnt, exc_types, info):
         if n == 0 and not opt:
             raise ExtractionError('%s: sub rule %r did not fire' % (cname, a))
         cnt.hit('sub_rule', n)
+    if spec.get('retref') and not spec['decl_only']:
+        body, nrr = re.subn(r'\breturn\b\s*([^;\s][^;]*);', r'return &(\1);', body)
+        if nrr == 0:
+            raise ExtractionError('%s: retref but no return statement' % cname)
+        cnt.hit('R16_retref', nrr)
     if spec.get('retself') and not spec['decl_only']:
         rets = re.findall(r'\breturn\b([^;]*);', body)
         if not rets or any(r.strip() not in ('*this', '') for r in rets):
